@@ -42,7 +42,27 @@ func urlDecision(c *Ctx, p *packages.Package, fd *ast.FuncDecl) {
 	for _, f := range allFuncDecls(p) {
 		decls[info.Defs[f.Name]] = f
 	}
-	d := &denum{info: info, pkg: p.Types, inits: inits, limit: 20000, decls: decls}
+	// (helpers the sanitiser is split into — classify the reference, compare with the allowed schemes — are followed into)
+	d := &denum{info: info, pkg: p.Types, inits: inits, limit: 20000, decls: decls, inlineVals: true}
+	// isInput: the identifier is the sanitiser's parameter, or a helper's parameter that stands for it on this state
+	isInput := func(id *ast.Ident, env map[types.Object]ast.Expr) bool {
+		ob := info.ObjectOf(id)
+		for i := 0; i < 6 && ob != nil; i++ {
+			if ob == param {
+				return true
+			}
+			b, ok := env[ob]
+			if !ok {
+				return false
+			}
+			bid, ok := ast.Unparen(b).(*ast.Ident)
+			if !ok {
+				return false
+			}
+			ob = info.ObjectOf(bid)
+		}
+		return false
+	}
 	// A hand-written scan of the input — for i := 0; i < len(s); i++ { … s[i] … } or for i, c := range s — that leaves
 	// the loop (break / return) at the first character of a stop set and goes on (continue / end of body) at every other
 	// character is summarised by what it establishes: after the loop without a stop, the input contains no stop
@@ -63,10 +83,14 @@ func urlDecision(c *Ctx, p *packages.Package, fd *ast.FuncDecl) {
 	d.loopHook = func(dd *denum, loop ast.Stmt, in []dstate) ([]dstate, bool) {
 		var idx, elem types.Object
 		var body *ast.BlockStmt
+		var env0 map[types.Object]ast.Expr
+		if len(in) > 0 {
+			env0 = in[0].env
+		}
 		switch l := loop.(type) {
 		case *ast.RangeStmt:
 			xid, ok := ast.Unparen(l.X).(*ast.Ident)
-			if !ok || info.ObjectOf(xid) != param || l.Tok != token.DEFINE {
+			if !ok || !isInput(xid, env0) || l.Tok != token.DEFINE {
 				return nil, false
 			}
 			if k, ok := l.Key.(*ast.Ident); ok && k.Name != "_" {
@@ -98,7 +122,7 @@ func urlDecision(c *Ctx, p *packages.Package, fd *ast.FuncDecl) {
 			if !ok || types.ExprString(lc.Fun) != "len" || len(lc.Args) != 1 {
 				return nil, false
 			}
-			if aid, ok := ast.Unparen(lc.Args[0]).(*ast.Ident); !ok || info.ObjectOf(aid) != param {
+			if aid, ok := ast.Unparen(lc.Args[0]).(*ast.Ident); !ok || !isInput(aid, env0) {
 				return nil, false
 			}
 			inc, ok := l.Post.(*ast.IncDecStmt)
@@ -137,7 +161,7 @@ func urlDecision(c *Ctx, p *packages.Package, fd *ast.FuncDecl) {
 			if ix, ok := e.(*ast.IndexExpr); ok && idx != nil {
 				xid, ok1 := ast.Unparen(ix.X).(*ast.Ident)
 				iid, ok2 := ast.Unparen(ix.Index).(*ast.Ident)
-				return ok1 && ok2 && info.ObjectOf(xid) == param && info.ObjectOf(iid) == idx
+				return ok1 && ok2 && isInput(xid, env0) && info.ObjectOf(iid) == idx
 			}
 			return false
 		}
@@ -260,11 +284,11 @@ func urlDecision(c *Ctx, p *packages.Package, fd *ast.FuncDecl) {
 			v = s
 		}
 		id, ok := ast.Unparen(call.Args[0]).(*ast.Ident)
-		return ok && info.ObjectOf(id) == param && v == ":"
+		return ok && isInput(id, env) && v == ":"
 	}
 	// strings.Cut(param, ":"): result 0 is the text before the first colon (the whole input when there is none),
 	// result 2 says whether there is a colon
-	isCutAtColon := func(e ast.Expr) bool {
+	isCutAtColon := func(e ast.Expr, env map[types.Object]ast.Expr) bool {
 		call, ok := ast.Unparen(e).(*ast.CallExpr)
 		if !ok || len(call.Args) != 2 {
 			return false
@@ -275,14 +299,14 @@ func urlDecision(c *Ctx, p *packages.Package, fd *ast.FuncDecl) {
 		}
 		sep, _ := constString(info, call.Args[1])
 		id, ok := ast.Unparen(call.Args[0]).(*ast.Ident)
-		return ok && info.ObjectOf(id) == param && sep == ":"
+		return ok && isInput(id, env) && sep == ":"
 	}
 	cutResult := func(e ast.Expr, env map[types.Object]ast.Expr) int { // -1: not a result of the cut
 		x := d.deref(e, env)
-		if isCutAtColon(x) {
+		if isCutAtColon(x, env) {
 			return 0
 		}
-		if ix, ok := x.(*ast.IndexExpr); ok && isCutAtColon(ix.X) {
+		if ix, ok := x.(*ast.IndexExpr); ok && isCutAtColon(ix.X, env) {
 			if bl, ok := ix.Index.(*ast.BasicLit); ok {
 				return int(bl.Value[0] - '0')
 			}
@@ -298,10 +322,10 @@ func urlDecision(c *Ctx, p *packages.Package, fd *ast.FuncDecl) {
 			return false
 		}
 		id, ok := ast.Unparen(sl.X).(*ast.Ident)
-		if ok && info.ObjectOf(id) == param && isMarker(d.deref(sl.High, env), "·firstIndexOf:") {
+		if ok && isInput(id, env) && isMarker(d.deref(sl.High, env), "·firstIndexOf:") {
 			return true // the scan stopped at the first ':' (and, when '/' is a stop character too, no '/' precedes it)
 		}
-		return ok && info.ObjectOf(id) == param && isFirstColonIndex(sl.High, env)
+		return ok && isInput(id, env) && isFirstColonIndex(sl.High, env)
 	}
 	type atom struct {
 		kind   string // colon | slash | scheme | unknown
@@ -420,7 +444,16 @@ func urlDecision(c *Ctx, p *packages.Package, fd *ast.FuncDecl) {
 			bad = "a return without a value"
 			break
 		}
+		// (in the sanitiser's own terms: locals and helpers' parameters replaced by what they stand for on this path)
 		res := d.deref(path.Ret.Results[0], path.Env)
+		if !returnsParam(info, res, param) {
+			if tv, ok := info.Types[res]; !ok || tv.Value == nil {
+				res = ast.Unparen(d.expand(path.Ret.Results[0], path.Env))
+			}
+		}
+		if fv := pkgVarField(p, res); fv != nil {
+			res = ast.Unparen(fv) // a field of the (immutable) policy value: what the literal gives it
+		}
 		passes := returnsParam(info, res, param)
 		var atoms []atom
 		for _, pc := range path.Conds {
